@@ -90,6 +90,12 @@ def gen_exact_case(rng, name):
         rows = 1.0 + np.tile(freq, (nrows, 1))          # ramp: an asymmetric window shifts the average
     fcs = [float(freq[int(rng.integers(8, nf - 8))]) for _ in range(6)]
     bw = float(0.25 * 2 * int(rng.integers(1, 5)))      # 0.5, 1.0, 1.5, 2.0
+    if rng.random() < 0.5:
+        # centre frequencies half way between two bins and a bandwidth that is an odd multiple of df: again samples exactly on both edges; with bw = df the
+        # two edge samples are the ONLY ones reached, and a triangular window gives both the weight 0 -- a column without any weight is 0, not 0/0
+        # (seed C02-W of round 9)
+        fcs = [f + 0.125 if j % 3 else f for j, f in enumerate(fcs)]
+        bw = float(0.25 * (2 * int(rng.integers(0, 4)) + 1))   # 0.25, 0.75, 1.25, 1.75
     return dict(op=name, bw=bw, freq=freq.tolist(), rows=rows.tolist(), fcs=fcs, kind="exact", n=n, dt=dt)
 
 
